@@ -14,7 +14,7 @@ from ..oracle import spectrum as O
 LEVEL = "exploration"
 NEEDS = ["cli", "cli:ovf"]
 STATS = ["d-fu-li", "d-tajima", "f2", "f3", "f4", "fst", "king", "pi", "pi-xy", "r0", "r1", "s", "sum", "theta"]
-RULE = ("(1) EVERY statistic (14) x EVERY shape with 1-4 axes and lengths 1-4 (340 shapes) plus all 1-2 axis shapes up to length 10 and all 9-entry shapes, zero/positive data; (2) view/fold/create option values at and "
+RULE = ("(1) EVERY statistic (14) x EVERY shape with 1-4 axes and lengths 1-4 (340 shapes) plus all 1-2 axis shapes up to length 10, all 9-entry shapes and ten shapes with 2^14 and more entries and a very short axis (3x6001, 3x81x81, ...), zero/positive data; (2) view/fold/create option values at and "
         "beyond their bounds (axes, projection targets 0 / larger / wrong dimensionality / 2^63 / 2^64-1, precision 0/17/65535/65536/10^6, threads); "
         "(2b) error exits and log lines with stderr pointing at /dev/full; (2c) successful work whose stdout is a pipe without reader (EPIPE), /dev/full (ENOSPC) or a read-only descriptor (EBADF), outputs from bytes to beyond the pipe buffer; (2d) `create` at every verbosity on inputs of 2^16 .. 2^17+1 records; (3) empty and 1-10 byte inputs and texts cut off after / interrupted by multi-byte UTF-8 characters, to all four subcommands by path and stdin; (4) absurd declared shapes in text and npy headers (0, 2^32, 2^63, "
         "wrapping products, up to 22000 axes); (5) contradictory sample lists: hand-written ones plus EVERY list of 1-4 entries over {2 samples} x {label A, label B, no label} (1554 lists, -s and -S) and seeded 5-9 entry lists over 3 samples x 4 labels; (6) hostile bytes: every single-byte substitution {^01, ^80, 00, ff, +1} "
@@ -130,6 +130,8 @@ def part_stat_grid(S, p):
     # statistics are defined for 3x3 only), so that a guard that tests the element count instead of the shape is seen
     shapes += [s_ for s_ in GS.all_shapes(2, 10) if max(s_) > 4]
     shapes += [[1, 1, 9], [9, 1, 1], [1, 9, 1], [3, 1, 3], [1, 3, 3], [3, 3, 1], [1, 3, 1, 3], [3, 3, 1, 1], [2, 2, 2, 2, 2], [27], [81]]
+    # far beyond it: a few spectra with 2^14 and more entries and a very short first or last axis (work split by rows, columns, blocks)
+    shapes += [[3, 6001], [2, 9001], [6001, 3], [3, 81, 81], [81, 81, 3], [3, 19, 19, 19], [19, 19, 19, 3], [20001], [129, 131], [2, 2, 5000]]
     mine = [s for k, s in enumerate(shapes) if k % NSHARD == p["i"]]
     for shape in mine:
         rng = rng_for(0, "c17-grid", str(shape))
